@@ -42,6 +42,10 @@ def universe(mode):
     u['m1'] = pygaps.Material('matA', density=2.5, comment='hello')
     u['m1b'] = pygaps.Material('matA', density=3.5, batch='b-two')
     u['m2'] = pygaps.Material('matB')
+    u['m1c'] = pygaps.Material('matA')          # the same item re-defined WITHOUT any property
+    u['a1c'] = pygaps.Adsorbate('gasA')
+    u['m1d'] = pygaps.Material('matA', density=9.75, comment='changed')     # ... with other VALUES of the same property types
+    u['a1d'] = pygaps.Adsorbate('gasA', formula='A_{4}', molar_mass=11.5, alias=['ga'])
     if mode == 'registered':
         pygaps.ADSORBATE_LIST.extend([u['a1'], u['a2']])
         pygaps.MATERIAL_LIST.extend([u['m1'], u['m2']])
@@ -56,6 +60,8 @@ def universe(mode):
     u['i3'] = pygaps.ModelIsotherm(material='matB', adsorbate='gasB', temperature=77.5, model='Langmuir',
                                    pressure=[0.1, 0.5, 1.0, 2.0, 4.0], loading=[0.9, 3.3, 5.0, 6.7, 8.0],
                                    comment='fit', **rs.UNITS)
+    # the material properties each isotherm was created with (a later retrieval may update a REGISTERED material object in place)
+    u['_own_mat_rows'] = {k: rs.mat_rows(u[k].material) for k in ('i1', 'i2', 'i3')}
     return u
 
 
@@ -69,7 +75,7 @@ def _ops():
     def add(label, fn, model):
         ops.append((label, fn, model))
 
-    for k, ow, auto in [('a1', False, True), ('a2', False, True), ('a1', False, False), ('a1b', True, True), ('a2', True, True)]:
+    for k, ow, auto in [('a1', False, True), ('a2', False, True), ('a1', False, False), ('a1b', True, True), ('a2', True, True), ('a1c', True, True), ('a1d', True, True)]:
         add(f'adsorbate_to_db({k}, overwrite={ow}, autoinsert_properties={auto})',
             lambda u, p, k=k, ow=ow, auto=auto: q.adsorbate_to_db(u[k], db_path=p, overwrite=ow, autoinsert_properties=auto, verbose=False),
             lambda s, u, k=k, ow=ow, auto=auto: s.adsorbate_to(u[k].name, rs.ads_rows(u[k]), ow, auto))
@@ -77,7 +83,7 @@ def _ops():
         lambda s, u: s.adsorbate_delete('gasA'))
     add("adsorbate_delete_db('gasB')", lambda u, p: q.adsorbate_delete_db('gasB', db_path=p, verbose=False),
         lambda s, u: s.adsorbate_delete('gasB'))
-    for k, ow, auto in [('m1', False, True), ('m2', False, True), ('m1', False, False), ('m1b', True, True), ('m2', True, True)]:
+    for k, ow, auto in [('m1', False, True), ('m2', False, True), ('m1', False, False), ('m1b', True, True), ('m2', True, True), ('m1c', True, True), ('m1d', True, True)]:
         add(f'material_to_db({k}, overwrite={ow}, autoinsert_properties={auto})',
             lambda u, p, k=k, ow=ow, auto=auto: q.material_to_db(u[k], db_path=p, overwrite=ow, autoinsert_properties=auto, verbose=False),
             lambda s, u, k=k, ow=ow, auto=auto: s.material_to(u[k].name, rs.mat_rows(u[k]), ow, auto))
@@ -97,6 +103,10 @@ def _ops():
         add(f'{fam}_property_type_to_db(t1 changed, overwrite=True)',
             lambda u, p, to=to, t=t1b: to(dict(t), db_path=p, overwrite=True, verbose=False),
             lambda s, u, attr=attr, t=t1b: s.type_to(attr, t, overwrite=True))
+        t1c = {'type': 't1', 'unit': 'w'}          # an overwrite replaces the whole record: the description becomes empty
+        add(f'{fam}_property_type_to_db(t1 unit only, overwrite=True)',
+            lambda u, p, to=to, t=t1c: to(dict(t), db_path=p, overwrite=True, verbose=False),
+            lambda s, u, attr=attr, t=t1c: s.type_to(attr, t, overwrite=True))
         add(f"{fam}_property_type_delete_db('t1')", lambda u, p, de=de: de('t1', db_path=p, verbose=False),
             lambda s, u, attr=attr: s.type_delete(attr, 't1'))
         if referenced:
@@ -217,7 +227,7 @@ def retrieval_diffs(path, model, u, mode):
                 if iso.iso_id != rec:
                     out.append(('retrieved-isotherm-not-equal', f'{iso!r} (criteria={crit}): identifier {iso.iso_id} != stored {rec}'))
                 continue
-            own_rows = rs.mat_rows(u[k].material)
+            own_rows = u.get('_own_mat_rows', {}).get(k, rs.mat_rows(u[k].material))
             same_mat = rs.rows_equal(model.mats.get(iso.material.name, []), own_rows) or not own_rows
             if iso.iso_id != rec and same_mat:
                 d_g, d_e = iso.to_dict(), u[k].to_dict()
